@@ -4,6 +4,12 @@
 //!   pvharness run <Cxx> <seed> <quick|thorough> <outdir>
 //!   pvharness replay <Cxx> <outdir> < caselines     (one case line per stdin line)
 mod c01;
+mod c02;
+mod c05;
+mod c06;
+mod search;
+mod prog;
+mod tree;
 mod c18;
 mod term;
 mod out;
@@ -32,6 +38,9 @@ fn main() {
             match prop {
                 "C18" => c18::run(seed, thorough, &mut out),
                 "C01" => c01::run(seed, thorough, &mut out),
+                "C02" => c02::run(seed, thorough, &mut out),
+                "C05" => c05::run(seed, thorough, &mut out),
+                "C06" => c06::run(seed, thorough, &mut out),
                 _ => {
                     eprintln!("unknown property {}", prop);
                     std::process::exit(2);
@@ -53,6 +62,9 @@ fn main() {
                 match prop {
                     "C18" => c18::replay(line, &mut out),
                     "C01" => c01::replay(line, &mut out),
+                    "C02" => c02::replay(line, &mut out),
+                    "C05" => c05::replay(line, &mut out),
+                    "C06" => c06::replay(line, &mut out),
                     _ => {
                         eprintln!("unknown property {}", prop);
                         std::process::exit(2);
